@@ -47,4 +47,60 @@ Fixpoint md_aligned_lines (w : bytes -> nat) (first : bool) (bs : list (list rec
 Definition write_markdown (w : bytes -> nat) (aligned crlf : bool) (recs : list record) : bytes :=
   unlines (ors_of crlf) (if aligned then md_aligned_lines w true (pp_all_batches recs) else md_lines [] recs).
 
-Definition read_markdown := read_barred sep_markdown.
+(* ---------------------------------------------------------------- reader: pkg/input/record_reader_markdown.go *)
+(* tMarkdownSplitter.Split (since /repo 80287c7ad): rows are split at bars; a bar whose PREVIOUS INPUT BYTE is a
+   backslash is cell content and takes the place of that backslash in the buffer.  [pb]: the previous input byte
+   was a backslash; [acc]: the buffer, reversed (non-empty whenever pb holds). *)
+Fixpoint md_split_go (s : bytes) (pb : bool) (acc : bytes) : list bytes :=
+  match s with
+  | [] => [rev acc]
+  | c :: t =>
+    if eqc c BAR then (if pb then md_split_go t false (BAR :: tl acc) else rev acc :: md_split_go t false [])
+    else md_split_go t (eqc c BSL) (c :: acc)
+  end.
+Definition md_split (s : bytes) : list bytes := match s with [] => [] | _ => md_split_go s false [] end.
+
+(* separatorMatcher `^\|[-:\| ]+\|$` (the colon since /repo 6be21e050) *)
+Definition sep_md (s : bytes) : bool :=
+  Nat.leb 3 (List.length s) && head_is BAR s && last_is BAR s
+  && forallb (fun c => eqc c "-" || eqc c ":" || eqc c BAR || eqc c SP) s.
+(* isSeparatorLine with separatorOnlyAfterHeaderLine (since /repo 75f65c604): only the second line of a block *)
+Definition md_is_sep (n : nat) (s : bytes) : bool := Nat.eqb n 2 && sep_md s.
+
+(* getRecordBatchExplicitPprintHeader / getRecordBatchImplicitPprintHeader as the markdown reader runs them:
+   [n] = numLinesInBlock (non-empty lines since the start of the text or the last empty line; a line without bars
+   counts too) *)
+Fixpoint md_read_go (implicit dedupe ragged : bool) (hdr : option (list bytes)) (n : nat) (ls : list bytes)
+  : option (list record) :=
+  match ls with
+  | [] => Some []
+  | l :: t =>
+    if is_nil l then md_read_go implicit dedupe ragged None 0 t
+    else
+      let n1 := S n in
+      if md_is_sep n1 l then md_read_go implicit dedupe ragged hdr n1 t
+      else
+        let padded := md_split l in
+        if Nat.ltb (List.length padded) 2 then md_read_go implicit dedupe ragged hdr n1 t
+        else
+          let fields := map trim_space (middle padded) in
+          match hdr with
+          | None =>
+            if implicit then
+              let hs := positional_keys (List.length fields) in
+              match md_read_go implicit dedupe ragged (Some hs) n1 t with
+              | None => None
+              | Some rs => Some (attach dedupe true 0 hs fields [] :: rs)
+              end
+            else md_read_go implicit dedupe ragged (Some fields) n1 t
+          | Some hs =>
+            if Nat.eqb (List.length hs) (List.length fields) || ragged then
+              match md_read_go implicit dedupe ragged (Some hs) n1 t with
+              | None => None
+              | Some rs => Some (attach dedupe true 0 hs fields [] :: rs)
+              end
+            else None
+          end
+  end.
+Definition read_markdown (implicit dedupe ragged : bool) (text : bytes) : option (list record) :=
+  md_read_go implicit dedupe ragged None 0 (lines_of text).
